@@ -1,6 +1,7 @@
 package gen
 
 import (
+	"strings"
 	"fmt"
 	"math"
 
@@ -22,7 +23,7 @@ type SQLGen struct {
 	DB *model.DB
 }
 
-var strDomain = []string{"", "a", "b", "ab", "B", "a b", "abc", "z", "a  b", " a b"}
+var strDomain = []string{"", "a", "b", "ab", "B", "a b", "abc", "z", "a  b", " a b", "it\\'s", "a\\\\b", "\"q\""}
 
 func (g *SQLGen) LitFor(t string) proto.Val {
 	r := g.R
@@ -332,6 +333,24 @@ func (g *SQLGen) Join6(tables []*model.Table) *proto.NStmt {
 		if selfJoin && i == 0 {
 			alias = "j0"
 		}
+		if i > 0 && r.Chance(1, 4) {
+			// identifiers are case-sensitive: a correlation name that differs
+			// from an earlier one only in letter case names another table
+			first := n.From[0].Alias
+			if first == "" {
+				first = n.From[0].Name
+			}
+			twin := strings.ToUpper(first)
+			taken := twin == first
+			for _, prev := range n.From {
+				if prev.Alias == twin || (prev.Alias == "" && prev.Name == twin) {
+					taken = true
+				}
+			}
+			if !taken {
+				alias = twin
+			}
+		}
 		nt := proto.NTable{Name: t.Name, Alias: alias}
 		if i > 0 {
 			nt.Join = []string{"inner", "left", "right"}[r.Intn(3)]
@@ -489,8 +508,12 @@ func (g *SQLGen) Agg7(table string, join string) *proto.NStmt {
 		q = "t"
 	}
 	if join != "" && join != "aliastwin" {
-		n.From = append(n.From, proto.NTable{Name: join, Alias: "d", Join: []string{"inner", "left", "right"}[r.Intn(3)],
-			On: &proto.Cond{Op: "=", LHS: &proto.Operand{Qual: q, Col: "gi"}, RHS: &proto.Operand{Qual: "d", Col: "k"}}})
+		da := "d"
+		if join == "dim" && q == "t" && r.Chance(1, 2) {
+			da = "T" // differs from the first table's correlation name in letter case only
+		}
+		n.From = append(n.From, proto.NTable{Name: join, Alias: da, Join: []string{"inner", "left", "right"}[r.Intn(3)],
+			On: &proto.Cond{Op: "=", LHS: &proto.Operand{Qual: q, Col: "gi"}, RHS: &proto.Operand{Qual: da, Col: "k"}}})
 	}
 	// a RIGHT JOIN pads the aggregated table's side with NULLs: then only
 	// COUNT is asked for (AVG over NULL and comparisons with NULL are outside
@@ -537,20 +560,24 @@ func (g *SQLGen) Agg7(table string, join string) *proto.NStmt {
 		return n
 	}
 	if join == "dim2" {
+		e := "e"
+		if q == "t" && r.Bool() {
+			e = "T" // a correlation name that differs from the first one in letter case only
+		}
 		// a joined table that shares column names (gi, gj) with the aggregated
 		// one: grouping columns are the same-named columns of both sides,
 		// written with qualifiers
-		n.From[1] = proto.NTable{Name: "dim2", Alias: "e", Join: []string{"inner", "left"}[r.Intn(2)],
-			On: &proto.Cond{Op: "=", LHS: &proto.Operand{Qual: q, Col: "gj"}, RHS: &proto.Operand{Qual: "e", Col: "gj"}}}
+		n.From[1] = proto.NTable{Name: "dim2", Alias: e, Join: []string{"inner", "left"}[r.Intn(2)],
+			On: &proto.Cond{Op: "=", LHS: &proto.Operand{Qual: q, Col: "gj"}, RHS: &proto.Operand{Qual: e, Col: "gj"}}}
 		n.Items = []proto.NItem{
 			{Kind: "expr", Expr: valExpr(&proto.Operand{Qual: q, Col: "gi"})},
-			{Kind: "expr", Expr: valExpr(&proto.Operand{Qual: "e", Col: "gi"})},
+			{Kind: "expr", Expr: valExpr(&proto.Operand{Qual: e, Col: "gi"})},
 			{Kind: "count"},
 		}
 		if r.Bool() {
-			n.Items = append(n.Items, proto.NItem{Kind: "count", Arg: &proto.Operand{Qual: "e", Col: "gj"}})
+			n.Items = append(n.Items, proto.NItem{Kind: "count", Arg: &proto.Operand{Qual: e, Col: "gj"}})
 		}
-		n.GroupBy = []proto.Operand{{Qual: q, Col: "gi"}, {Qual: "e", Col: "gi"}}
+		n.GroupBy = []proto.Operand{{Qual: q, Col: "gi"}, {Qual: e, Col: "gi"}}
 		if r.Bool() {
 			n.GroupBy[0], n.GroupBy[1] = n.GroupBy[1], n.GroupBy[0]
 		}
